@@ -813,7 +813,7 @@ pub fn run(tier: Tier, seed: u64, known: &KnownFindings) -> CheckReport {
             "after an export returned Err nothing is claimed about the file".into(),
         ],
         real_components: vec!["mahf::logging::{Logger, LogConfig, Log (to_json, to_cbor)}".into(), "mahf::Configuration::to_ron, serde_json, ciborium, ron".into(), "std::fs on the fault-free paths and for /dev/full".into()],
-        stubbed_components: vec!["the disk under injected faults (in-memory SimDisk behind the cfg(mahf_verif) I/O seam)".into(), "leaf components and scripted triggers".into()],
+        stubbed_components: vec!["the disk's failure behaviour (SimDisk: a fault-injecting layer behind the cfg(mahf_verif) I/O seam in front of real scratch files; accepted bytes are written through)".into(), "leaf components and scripted triggers".into()],
         batches: vec![b1, b2, b3, b4, b5, b6],
         extra: Default::default(),
     }
